@@ -673,3 +673,42 @@ package compiler
 //@     invariant todo: forall k: int :: i < k && k < len(object.Type.Struct.Fields) ==> object.Type.Struct.Fields[k] == old(object.Type.Struct.Fields[k])
 //@     invariant name: field.Name == old(object.Type.Struct.Fields[i].Name) && field.Required == old(object.Type.Struct.Fields[i].Required) && object.Type.Struct.Fields[i].Name == old(object.Type.Struct.Fields[i].Name) && object.Type.Struct.Fields[i].Required == old(object.Type.Struct.Fields[i].Required)
 //@     invariant none: (forall r: FieldReference :: visited(r) ==> !fieldMatch(r, object, old(object.Type.Struct.Fields[i]))) ==> field == old(object.Type.Struct.Fields[i]) && object.Type.Struct.Fields[i] == old(object.Type.Struct.Fields[i])
+//
+// anonymous_enum_to_explicit_type (Go, Java, PHP: "every enum is a named object"). The pass has its own
+// recursion. processType never hands back an enum: an enum becomes a reference to a new named object,
+// every other kind keeps its kind; the element type of a processed array, the value type of a processed
+// map and field i of a processed struct are what processType returned for them (stored in place).
+//@ func (*AnonymousEnumToExplicitType).processAnonymousEnum
+//@   property C06
+//@   requires pass != nil
+//@   ensures  named: result.Kind == ast.KindRef && result.Ref != nil && result.Ref.ReferredPkg == old(pass.currentPackage)
+//@   ensures  registered: len(pass.newObjects) == old(len(pass.newObjects)) + 1 && pass.newObjects[old(len(pass.newObjects))].Type.Kind == ast.KindEnum && pass.newObjects[old(len(pass.newObjects))].Name == result.Ref.ReferredType
+//
+//@ func (*AnonymousEnumToExplicitType).processType
+//@   property C06
+//@   traced
+//@   requires pass != nil
+//@   ensures  notenum: result.Kind != ast.KindEnum
+//@   ensures  enum: def.Kind == ast.KindEnum ==> result.Kind == ast.KindRef
+//@   ensures  kind: def.Kind != ast.KindEnum ==> result.Kind == def.Kind
+//
+//@ func (*AnonymousEnumToExplicitType).processArray
+//@   property C06
+//@   requires pass != nil && def.Kind == ast.KindArray
+//@   at-call "compiler.(*AnonymousEnumToExplicitType).processType" element: $arg0 == pass && $arg4 == old(def.Array.ValueType)
+//@   ensures  same: result == def
+//@   ensures  element: def.Array.ValueType.Kind != ast.KindEnum
+//
+//@ func (*AnonymousEnumToExplicitType).processMap
+//@   property C06
+//@   requires pass != nil && def.Kind == ast.KindMap
+//@   ensures  same: result == def
+//@   ensures  value: def.Map.ValueType.Kind != ast.KindEnum
+//
+//@ func (*AnonymousEnumToExplicitType).processStruct
+//@   property C06
+//@   requires pass != nil && def.Kind == ast.KindStruct
+//@   at-call "compiler.(*AnonymousEnumToExplicitType).processType" field: $arg0 == pass && $arg4 == old(def.Struct.Fields)[$i + 1].Type
+//@   ensures  same: result == def
+//@   loop 0:
+//@     invariant stored: $i >= 0 ==> def.Struct.Fields[$i].Type == lastres("compiler.(*AnonymousEnumToExplicitType).processType", 0) && def.Struct.Fields[$i].Type.Kind != ast.KindEnum
